@@ -56,7 +56,20 @@ TraceFraudNaN ==
           <<"C19.valueerror_iff_outside_unit_interval",
                (outside => e.exc = "ValueError") /\ ((~outside /\ ~hasnan) => e.exc = "")>>}))
 
-Next == TraceFraudNew \/ TraceLabels \/ TraceFraudNaN
+(* from_labels splits by EQUALITY with the genuine label: samples whose label equals it are genuine, *)
+(* all others - also when nothing equals it, or the label is of another type - are frauds          *)
+TraceFromLabelsSplit ==
+  /\ IsEvent("from_labels_split")
+  /\ LET e == Log[l]
+         all == {0, 1, 2, 3}
+         G == {e.want_genuine[i] : i \in DOMAIN e.want_genuine}
+     IN Report(e, Failing({
+          <<"C19.no_other_exception", e.exc = "">>,
+          <<"C19.from_labels_splits_by_the_genuine_label", e.exc # "" \/
+               ({e.genuine[i] : i \in DOMAIN e.genuine} = G /\ {e.fraud[i] : i \in DOMAIN e.fraud} = all \ G
+                /\ Len(e.genuine) + Len(e.fraud) = 4)>>}))
+
+Next == TraceFraudNew \/ TraceLabels \/ TraceFraudNaN \/ TraceFromLabelsSplit
 Spec == Init /\ [][Next]_vars
 AllConsumed == TLCGet("stats").diameter - 1 = Len(Log)
 =============================================================================
